@@ -443,6 +443,27 @@ pub fn run(ctx: &Ctx) -> Outcome {
             for t in TYPES.iter() {
                 check_type(t.ty, t.name, Some((t.family, t.id, t.w, t.h)), rep);
             }
+            // "decodes to THAT type" only means something if the eleven types are eleven different values: each equals its
+            // copy (and hashes alike) and nothing else
+            {
+                use std::hash::{Hash, Hasher};
+                let h = |x: &flipdot_core::SignType| {
+                    let mut s = std::collections::hash_map::DefaultHasher::new();
+                    x.hash(&mut s);
+                    s.finish()
+                };
+                for (i, a) in TYPES.iter().enumerate() {
+                    for (j, b) in TYPES.iter().enumerate() {
+                        rep.case(Some(0xC19_E000 + (i * 16 + j) as u64));
+                        let copy = a.ty;
+                        let same = a.ty == b.ty;
+                        if same != (i == j) || (i == j && (copy != a.ty || h(&copy) != h(&a.ty))) || (i != j && a.ty.to_bytes() == b.ty.to_bytes()) {
+                            rep.violation(MON_T, "sign_types_not_eleven_distinct_values", &format!("{}|{}", a.name, b.name), format!("{} == {} gives {}; blocks {} / {}", a.name, b.name, same, hex(&a.ty.to_bytes()), hex(&b.ty.to_bytes())), J::obj(vec![("a", J::s(a.name)), ("b", J::s(b.name))]));
+                        }
+                        rep.count("type_pairs_compared");
+                    }
+                }
+            }
         } else if shard <= 256 {
             // all 256 ids for this family byte x 8 tails
             let family = (shard - 1) as u8;
